@@ -7,6 +7,7 @@ import (
 	"fmt"
 	"math"
 	"sort"
+	"strings"
 	"sync"
 	"time"
 )
@@ -222,6 +223,64 @@ func corrC15(outDir string, seed uint64, tier string, replay string) *report {
 			}
 		}
 	}
+	// ---- a source that fails, or delivers fewer bytes than asked, at every point of a draw ----
+	// NewHash may fail (error or panic: no hash, no harm); what it must never do is hand out a hash whose salt is not
+	// made of source bytes (zero-filled or truncated salts repeat across calls)
+	panicsBefore := len(panicsSeen)
+	for _, sc := range schemes {
+		if sc.name == "nthash" {
+			continue
+		}
+		for k := 0; k <= 20; k++ {
+			for _, short := range []bool{false, true} {
+				stream := r.bytes(64)
+				for i := range stream {
+					if stream[i] == 0 {
+						stream[i] = 0x5A // no zero bytes in the source: a zero-filled salt cannot be a genuine draw
+					}
+				}
+				fr := &faultReader{data: stream, failAfter: k, short: short}
+				crand.Reader = fr
+				var h string
+				var err error
+				var pan interface{}
+				func() {
+					defer func() { pan = recover() }()
+					h, err = sc.newHash("pw", 0)
+				}()
+				crand.Reader = old
+				rep.bump("fault_injections")
+				if err != nil || pan != nil || h == "" {
+					rep.bump("fault_no_hash")
+					continue
+				}
+				p, perr := sc.params(h)
+				if perr != nil {
+					continue
+				}
+				want := refSalt(sc.name, stream, false)
+				zeroes := false
+				switch sc.name {
+				case "bcrypt":
+					raw, _ := base64.NewEncoding(alphaBcrypt).WithPadding(base64.NoPadding).DecodeString(string(p.salt))
+					zeroes = bytes.Contains(raw, []byte{0, 0, 0})
+				case "argon2":
+					raw, _ := base64.RawStdEncoding.DecodeString(string(p.salt))
+					zeroes = bytes.Contains(raw, []byte{0, 0, 0})
+				default:
+					zeroes = strings.Contains(string(p.salt), "...")
+				}
+				if string(p.salt) != want && (zeroes || fr.failed) {
+					rep.fail(map[string]interface{}{"scheme": sc.name, "source": fmt.Sprintf("delivers %d bytes, then %s", k, map[bool]string{false: "fails", true: "returns short reads of one byte"}[short]), "hash": h},
+						"an error (or a salt made of the bytes the source delivered: "+want+")", "hash with salt "+string(p.salt)+" and a nil error",
+						"NewHash returns a hash whose salt is not made of random bytes when crypto/rand.Reader fails or delivers short reads")
+				}
+			}
+		}
+	}
+	// a panic because the entropy source failed is the library's documented reaction (no hash is handed out): the
+	// panics recorded by the call wrappers during this section are not findings
+	panicsSeen = panicsSeen[:panicsBefore]
 	// ---- sessions: many calls of ALL schemes mixed (sequentially, then from 8 goroutines) over ONE known stream ----
 	// whatever the library does between the source and the salt (read sizes, buffering), every salt must be made of
 	// source bytes that no other salt was made of: the raw salt (or the low six bits of consecutive bytes) is looked up
@@ -374,3 +433,43 @@ func (s *sessionReader) Read(p []byte) (int, error) {
 	return n, nil
 }
 func (s *sessionReader) pos() int { s.mu.Lock(); defer s.mu.Unlock(); return s.off }
+
+// faultReader delivers failAfter bytes of data and then fails for good (short=false), or keeps delivering but one byte
+// per Read call (short=true: legal for an io.Reader).
+type faultReader struct {
+	data      []byte
+	off       int
+	failAfter int
+	short     bool
+	failed    bool
+}
+
+func (f *faultReader) Read(p []byte) (int, error) {
+	if len(p) == 0 {
+		return 0, nil
+	}
+	if f.off >= f.failAfter {
+		if !f.short {
+			f.failed = true
+			return 0, fmt.Errorf("entropy source unavailable")
+		}
+		if f.off >= len(f.data) {
+			f.failed = true
+			return 0, fmt.Errorf("entropy source exhausted")
+		}
+		p[0] = f.data[f.off]
+		f.off++
+		return 1, nil
+	}
+	n := f.failAfter - f.off
+	if n > len(p) {
+		n = len(p)
+	}
+	copy(p, f.data[f.off:f.off+n])
+	f.off += n
+	if n < len(p) && !f.short {
+		f.failed = true
+		return n, fmt.Errorf("entropy source unavailable")
+	}
+	return n, nil
+}
